@@ -100,7 +100,7 @@ def recording_console(width=250):
 def render(fn, *args, **kwargs):
     """call fn(console-arg-position by keyword 'console_pos') and return exported text"""
     pos = kwargs.pop("console_pos", 0)
-    con = recording_console()
+    con = recording_console(kwargs.pop("width", 250))
     a = list(args)
     a.insert(pos, con)
     fn(*a, **kwargs)
